@@ -32,7 +32,13 @@ impl DeError {
 		}
 	}
 	pub(crate) fn unexpected_eof() -> Self {
-		Self::new("Unexpected end of slice while deserializing")
+		Self::unexpected_eof_msg("Unexpected end of slice while deserializing")
+	}
+	/// Reaching the end of the input prematurely is an IO error (`UnexpectedEof`) whether reading
+	/// from a slice or from an `impl BufRead` (notably, the object container file reader won't
+	/// attempt to read any further after that)
+	pub(crate) fn unexpected_eof_msg(msg: &'static str) -> Self {
+		Self::custom_io(msg, std::io::ErrorKind::UnexpectedEof.into())
 	}
 	pub(crate) fn io(io_error: std::io::Error) -> Self {
 		Self::custom_io(
